@@ -54,7 +54,9 @@ Escapes == {"plain", "quotes", "control", "multibyte", "html"}   \* html: litera
 
 CauseCases ==
     {[part |-> "cause", json |-> j, fields |-> fs, size |-> z, esc |-> e, extra |-> x] :
-        j \in {"object", "invalid", "array", "string"}, fs \in SUBSET Fields, z \in Sizes, e \in Escapes, x \in BOOLEAN}
+        \* trailing: a well-formed document followed by further bytes; concat: two documents one after the other -
+        \* neither is valid JSON
+        j \in {"object", "invalid", "array", "string", "trailing", "concat"}, fs \in SUBSET Fields, z \in Sizes, e \in Escapes, x \in BOOLEAN}
 
 \* "dropped" | "bounded": valid JSON of at most 64 KiB whose fields are (prefixes of) the original ones
 CauseOut(k) ==
